@@ -3,6 +3,7 @@ package c13
 import (
 	"encoding/pem"
 	"io"
+	"math/big"
 
 	"github.com/emmansun/gmsm/sm9"
 )
@@ -74,6 +75,13 @@ func epsSM9() []*epT {
 			seeds: []seedT{sig("sm9sig-a")},
 			call: func(x *cx, in []byte) (ok bool) {
 				x.g("sm9.SignMasterPublicKey.Verify", func() { ok = signPub().Verify(sm9UID, sm9HidSign, hash, in) })
+				return
+			}},
+		{name: "sm9.Verify[raw-S]", small: true, costly: true, fast: true, pairLimit: 24,
+			seeds: []seedT{S("sm9sig-a-rawS", func() []byte { _, s := splitSM9Sig(seedMemoOr("sm9sig-a")); return s })},
+			call: func(x *cx, in []byte) (ok bool) {
+				h, _ := splitSM9Sig(seedMemoOr("sm9sig-a"))
+				x.g("sm9.Verify[raw-S]", func() { ok = sm9.Verify(signPub(), sm9UID, sm9HidSign, hash, new(big.Int).SetBytes(h), in) })
 				return
 			}},
 		rawDec("XOR", nil, rawCT("sm9ct-raw-xor", msgShort, nil)),
@@ -392,6 +400,21 @@ func epsSM9() []*epT {
 			}},
 	)
 	return eps
+}
+
+// splitSM9Sig takes SEQUENCE{OCTET STRING h, BIT STRING S} (a valid seed) apart.
+func splitSM9Sig(der []byte) (h, s []byte) {
+	root, ok := readTLV(der, 0)
+	if !ok {
+		panic("c13: splitSM9Sig")
+	}
+	ch := children(der, root)
+	if len(ch) != 2 {
+		panic("c13: splitSM9Sig: shape")
+	}
+	h = der[ch[0].off+ch[0].hdr : ch[0].off+ch[0].hdr+ch[0].ln]
+	s = der[ch[1].off+ch[1].hdr+1 : ch[1].off+ch[1].hdr+ch[1].ln]
+	return
 }
 
 var sm9kxRB, sm9kxSB []byte
